@@ -45,6 +45,9 @@ def repo_corpus():
     # an implicit reference whose stored schema is itself a reference (a recursive alias of an @reference)
     out.append({"mods": {"file:///w/main.oal": "let @b = { 'name str, 'next a };\nlet a = @b;\nres /items on get -> a;\nres /r on get -> <rec x @b>;\n"},
                 "main": "file:///w/main.oal"})
+    # concat: the query parameters of the left operand are dropped, those of the right one kept
+    out.append({"mods": {"file:///w/main.oal": "let collection = /items?{ 'page int, 'sort! str };\nlet item = concat collection /{ 'id str };\nres item on get -> <{ 'name str }>;\n"
+                         "res (concat collection /search?{ 'q! str }) on get -> <>;\n"}, "main": "file:///w/main.oal"})
     # user-chosen map keys spelling "$ref" (property, header, media type): objects, not references
     out.append({"mods": {"file:///w/main.oal": "let @a = { '$ref str, 'n [@a] };\nres /x on get : { '$ref int } -> <headers={ '$ref str }, media=\"$ref\", @a>;\n"},
                 "main": "file:///w/main.oal"})
